@@ -35,6 +35,7 @@ inductive Err where
   | feature      -- unknown analytical feature, or a reserved name (x, y, z, t, timestamp, idx) as output feature
   | emptyTrack   -- `createAnalyticalFeature` on a track without observation (AnalyticalFeatureError)
   | nanKernel    -- a kernel given as a feature name whose values contain NaN (every weight becomes NaN): not modelled
+  | kernelType   -- a number given as kernel: `len(kernel)` in the kernel preparation raises TypeError
   | operands     -- `Track.operate` with lists of input and output names of different lengths (OperatorError, in fact a NameError)
   deriving DecidableEq, Repr
 
@@ -228,6 +229,8 @@ inductive SeqArg (α : Type) where
   | k (a : KArg α)
   /-- a `str`: `Filter.execute` takes the values of that feature (or coordinate) of the track as weights -/
   | feat (name : String)
+  /-- a `float` (the documented "half width of a rectangular window"): neither an `int`, a list nor a Kernel -/
+  | num
 
 /-- a track seen by `filter_seq`: named signals (`x`, `y`, `z`, then the analytical features) -/
 abbrev Sigs (α : Type) := List (String × List (Option α))
@@ -266,6 +269,8 @@ def nextKernel (kern : KArg α) : Option (List α) → KArg α
 inductive KSrc (α : Type) where
   | arg (a : KArg α)
   | feat (name : String)
+  /-- a number: `np.sum(np.array(kernel))` passes, `len(kernel)` raises TypeError -/
+  | num
 
 /-- `if isinstance(kernel, str): kernel = track.getAnalyticalFeature(kernel)` (a fresh list: the
 feature itself is not normalised) -/
@@ -275,12 +280,14 @@ def resolve (t : Sigs α) : KSrc α → Except Err (KArg α)
     match getSig t name with
     | none => .error .feature
     | some w => if w.any (·.isNone) then .error .nanKernel else .ok (.list (w.filterMap id))
+  | .num => .error .kernelType
 
 /-- the object bound to the caller's `kernel` after the call (a `str` is immutable) -/
 def nextSrc (kern : KSrc α) (k' : Option (List α)) : KSrc α :=
   match kern with
   | .arg a => .arg (nextKernel a k')
   | .feat n => .feat n
+  | .num => .num
 
 /-- `track.operate(Operator.FILTER, af_in, kernel, af_out)` (`ScalarVoidOperator` with a `str` first
 argument, i.e. `Filter.execute(track, af_in, kernel, af_out)`), in the order of the Python: kernel
@@ -364,6 +371,7 @@ def filterSeq [BEq α] (t : Sigs α) (kernel : SeqArg α) (dim : List String) : 
     | .int n => .arg (.list (List.replicate n.toNat 1))
     | .k a => .arg a
     | .feat n => .feat n
+    | .num => .num
   match kern with
   | .arg (.list [_]) => .ok t
   | _ => seqLoop dim kern t
